@@ -18,13 +18,19 @@ def _alarm(signum, frame):
     raise Timeout()
 
 
+# what `guarded` does with Python warnings raised inside the library: "ignore" (default) or "error"
+# (set temporarily by the warnings-as-errors legs: a value the property promises must not turn into an
+# exception when the caller runs with `-W error`)
+WARN_FILTER = "ignore"
+
+
 def guarded(fn, seconds=20):
     """Run fn() -> ('ok', value) | ('exc', ExceptionTypeName, message)."""
     old = signal.signal(signal.SIGALRM, _alarm)
     signal.alarm(seconds)
     try:
         with warnings.catch_warnings():
-            warnings.simplefilter("ignore")
+            warnings.simplefilter(WARN_FILTER)
             return ("ok", fn())
     except Timeout:
         return ("exc", "Timeout", "")
